@@ -105,6 +105,40 @@ def spec(a):
     return (a["apps"] and a["app_more"]) or (a["ctxs"] and a["ctx_more"])
 
 
+def eval_cond(eng, st, c, a):
+    """Truth value of condition c under the atom assignment a (None if it mentions something outside the vocabulary)."""
+    k = c[0]
+    if k == "const":
+        return bool(c[1])
+    if k == "not":
+        v = eval_cond(eng, st, c[1], a)
+        return None if v is None else not v
+    if k in ("and", "or"):
+        x, y = eval_cond(eng, st, c[1], a), eval_cond(eng, st, c[2], a)
+        if k == "and":
+            if x is False or y is False:
+                return False
+            return None if (x is None or y is None) else True
+        if x is True or y is True:
+            return True
+        return None if (x is None or y is None) else False
+    if k == "sym":
+        l = literal(("sym", c[1], True))
+        return None if l is None else a[l[0]] == l[1]
+    if k == "cmp":
+        l = literal(("cmp", c[1], repr(c[2]), repr(c[3]), True))
+        return None if l is None else a[l[0]] == l[1]
+    if k == "isvar":
+        ev = eng.M.read_path(st, c[1], c[2])
+        if isinstance(ev, Enum):
+            at = ATOMS.get(("variant", ev.name))
+            if at is not None:
+                some = eng.T.variant_name(ev.ty, eng.T.variant_by_discr(ev.ty, c[3])) == "Some"
+                return (a[at] == some) == bool(c[4])
+        return None
+    return None
+
+
 def literal(k):
     """(atom name, truth) of a key item, or None if it is not in the vocabulary."""
     if k[0] == "variant":
@@ -175,11 +209,12 @@ def tab_f(ctx):
         if bad is not None:
             R.violation("TAB-F", "%s|unknown-atom|%s" % (FN, re.sub(r"#\d+", "#", str(bad[:4]))[:160]), "filtered_out branches on a condition outside the property's vocabulary: %s" % (bad,), function=FN, file=fl, line=ln, kind="UNRECOGNISED-SHAPE")
             continue
-        if not res or res[0] != "const":
-            R.violation("TAB-F", "%s|verdict-not-constant|%s" % (FN, sorted(lits.items())), "an exit's verdict is not determined by the conditions on its path: %s" % (res,), function=FN, file=fl, line=ln, kind="UNRECOGNISED-SHAPE")
+        if not res:
+            R.violation("TAB-F", "%s|verdict-shape" % FN, "an exit's verdict is not a boolean value", function=FN, file=fl, line=ln, kind="UNRECOGNISED-SHAPE")
             continue
-        exits.append((lits, res[1]))
-        R.sample({"when": {k: v for k, v in sorted(lits.items())}, "filtered_out": res[1]})
+        # the verdict may be a constant or a boolean expression over the atoms (e.g. `!set.contains(id)` returned directly)
+        exits.append((lits, res, st))
+        R.sample({"when": {k: v for k, v in sorted(lits.items())}, "filtered_out": res[1] if res[0] == "const" else repr(res)[:120]})
     R.instance("TAB-F", "%d exits of filtered_out, each a conjunction of atoms with a constant verdict" % len(exits))
     n = bad_rows = 0
     reported = set()
@@ -189,6 +224,13 @@ def tab_f(ctx):
         if not a["cfg"] and any(a[x] for x in ORDER[1:]):
             continue
         m = [e for e in exits if all(a[k] == v for k, v in e[0].items())]
+        m = [(e[0], eval_cond(eng, e[2], e[1], a)) for e in m]
+        if any(e[1] is None for e in m):
+            key = "rows|verdict-undetermined"
+            if key not in reported:
+                reported.add(key)
+                R.violation("TAB-F", "%s|%s" % (FN, key), "an exit's verdict depends on a condition outside the property's vocabulary", function=FN, file=fl, line=ln, kind="UNRECOGNISED-SHAPE")
+            continue
         n += 1
         want = bool(spec(a))
         if len(m) != 1:
